@@ -259,6 +259,9 @@ def run_cfgfile(eng, p):
     kname = (key[0].upper() if kbit else key[0]) + key[1:]
     line = SStr(list(kname + " = ") + list(digits) + ["\n"])
     lines = ["# comment\n", header, line, "\n"]
+    if sec != "user":
+        # a key that dclab does not define for this section
+        lines.insert(3, "bogus key = 5\n")
 
     class Path:
         def __init__(self, nm):
@@ -309,9 +312,23 @@ def run_cfgfile(eng, p):
     eng.prove(z3.BoolVal(list(cfg.keys()) == [sec]),
               "config file: section stored under its lower-case name",
               info={"sections": list(cfg.keys())})
+    # the same file through Configuration(files=[...]): undefined keys of a
+    # defined section are not taken over, values are type-normalised
+    with quiet():
+        conf = ns["Configuration"](files=["mem.cfg"])
+    eng.prove(z3.BoolVal(sec in conf and "bogus key" not in conf[sec]),
+              "Configuration(files=...): keys that are not defined for the "
+              "section are rejected", info={"keys": list(conf[sec].keys())
+                                           if sec in conf else None})
+    if sec in conf and key in conf[sec]:
+        gotc = conf[sec][key]
+        eng.prove(SStr.lift(gotc).eq(SStr(list(digits))) if isinstance(
+            gotc, (SStr, str)) else z3.BoolVal(False),
+            "Configuration(files=...): str-typed value stored unchanged")
     if sec in cfg:
         d = cfg[sec]
-        eng.prove(z3.BoolVal(list(d.keys()) == [key]),
+        eng.prove(z3.BoolVal([k for k in d.keys() if k != "bogus key"] ==
+                             [key]),
                   "config file: key stored under its lower-case name",
                   info={"keys": list(d.keys())})
         if key in d:
@@ -550,6 +567,18 @@ def replay(case, params, v):
                     fd.write("# comment\n[%s]\n%s = %s\n\n" % (
                         hdr, kname, digits))
                 cfg = load_from_file(pth)
+            from dclab.rtdc_dataset.config import Configuration
+            with tempfile.TemporaryDirectory(prefix="verif_c11_") as td, \
+                    quiet():
+                pth = os.path.join(td, "c.cfg")
+                with open(pth, "w") as fd:
+                    fd.write("[%s]\n%s = %s\nbogus key = 5\n" % (
+                        hdr, kname, digits))
+                conf = Configuration(files=[pth])
+                if sec != "user" and "bogus key" in conf[sec]:
+                    fails.append("Configuration(files=...) takes over the "
+                                 "undefined key 'bogus key' of [%s]" % sec)
+                    break
             got = cfg.get(sec, {}).get(key, None)
             if got != digits:
                 fails.append("[%s] %s = %s is loaded as %r (sections %r)" % (
@@ -557,7 +586,9 @@ def replay(case, params, v):
                 break
         if fails:
             return {"reproduced": True,
-                    "key": "load_from_file|%s|value-changed" % sec,
+                    "key": "load_from_file|%s|%s" % (
+                        sec, "undefined-key-kept" if "undefined key" in
+                        fails[0] else "value-changed"),
                     "detail": fails[0]}
         return {"reproduced": False, "key": "not-reproduced",
                 "detail": "config file loads unchanged on the real code"}
